@@ -355,3 +355,18 @@ Theorem C06_src_add_filter_best_token_is_model : forall (cnt : N -> option N) (g
   Struct_List_Proofs.run_group ListGen.add_filter_arms cnt g (best, minc) = best_loop cnt g best minc.
 Proof. exact Struct_List_Proofs.run_group_is_best_loop_add. Qed.
 Print Assumptions C06_src_add_filter_best_token_is_model.
+
+(* the assumption under the cache model ([cache a] = the pattern the regex at key a was compiled
+   from, whether for the first time or after a discard): in the source a discarded entry is rebuilt
+   by the very expression that builds a new one, discarding only sets the regex to None, and
+   `clear` empties the map (Generated.RegexMgrGen, re-read on every run) *)
+From Adb Require Struct_Matchers_Proofs.
+Theorem C06_src_recreate_is_create : RegexMgrGen.recreate_expr = RegexMgrGen.create_expr.
+Proof. exact Struct_Matchers_Proofs.recreate_is_create. Qed.
+Print Assumptions C06_src_recreate_is_create.
+
+Theorem C06_src_regex_lifecycle_shape :
+  RegexMgrGen.discard_sets_regex_none = true /\ RegexMgrGen.clear_empties_map = true /\
+  RegexMgrGen.compile_regex_params = ["filters"; "is_right_anchor"; "is_left_anchor"; "is_complete_regex"]%string.
+Proof. exact Struct_Matchers_Proofs.regex_lifecycle_shape. Qed.
+Print Assumptions C06_src_regex_lifecycle_shape.
